@@ -496,10 +496,17 @@ class Run:
                 if len(sm) > 1:
                     return "duplicate-flow-after-%s" % redo_kind.lower()
                 q = self.parent_of(q, by_tid)
-        if did("Cancel"):
+        if did("Cancel") and not dynamic:
             # cancel marks the running tasks on the path to the next steps Completed (pending ones Skipped) without closing what runs beneath them
+            # (declared nodes only: what happens to acts generated at run time under a cancel is not part of this recorded mechanism)
             q = p
+            chain_declared = True
             while q is not None:
+                if self.node_attr(q["nid"]) is None:
+                    chain_declared = False
+                q = self.parent_of(q, by_tid)
+            q = p
+            while q is not None and chain_declared:
                 if q["kind"] in ("Step", "Branch") and q["state"] in ("Completed", "Skipped"):
                     return "open-beneath-path-task-closed-by-cancel"
                 q = self.parent_of(q, by_tid)
